@@ -841,9 +841,18 @@ impl Log {
 			};
 			*appending = Some(Appending { size: 0, file: std::io::BufWriter::new(file), id });
 		}
+		let flushed = log.flush_to_file(&mut appending.as_mut().unwrap().file);
+		let FlushedLog { index, values, ref_count, bytes } = match flushed {
+			Ok(flushed) => flushed,
+			Err(e) => {
+				// The file ends in a torn record. Give it up: records are applied without
+				// validation while the database is open, it must never reach the read queue. It
+				// stays on disk and the next open stops at the torn record.
+				*appending = None;
+				return Err(e)
+			},
+		};
 		let appending = appending.as_mut().unwrap();
-		let FlushedLog { index, values, ref_count, bytes } =
-			log.flush_to_file(&mut appending.file)?;
 		let mut overlays = self.overlays.write();
 		let mut total_index = 0;
 		for (id, overlay) in index.into_iter() {
